@@ -174,6 +174,15 @@ def run_sweep(T, tier, seed, optsets, name='core'):
             continue
         mreqs.append(r)
     stats['programs'] = len(mreqs)
+    hy = {'grammars': 0, 'all_hypotheses_hold': 0, 'wfb': 0, 'grammarOK': 0, 'linkedOK': 0, 'plain': 0}
+    for r in allm:
+        if r['opts'] == '' and model[r['id']].get('hyps'):
+            h = model[r['id']]['hyps']
+            hy['grammars'] += 1
+            for k in ('wfb', 'grammarOK', 'linkedOK', 'plain'):
+                hy[k] += 1 if h.get(k) else 0
+            hy['all_hypotheses_hold'] += 1 if all(h.get(k) for k in ('wfb', 'grammarOK', 'linkedOK', 'plain')) else 0
+    stats['theorem_hypotheses'] = hy
     for r in mreqs:
         x = realby[r['id']]
         if x.get('irError') or not x.get('ir'):
